@@ -144,3 +144,52 @@ def constraints_term(sn, strict):
         return ('call', ('name', 'and_'), (('attr', s, '_constraints'), ('attr', s, '_strictbounds')),
                 (('onfail', ('attr', s, '_strictbounds')),))
     return ('attr', s, '_constraints')
+
+
+def check_coupling(ctx, key, m):
+    """on every path of m, the local `constraints` is the and_(...) coupling when strict ranges are on
+    and self._constraints when they are off (a path that does not test _useStrictRange must satisfy both)"""
+    from .common import stmts_of
+    sn = selfname_of(m)
+
+    def rel(n):
+        if isinstance(n, ast.Name) and n.id == 'constraints' and isinstance(n.ctx, ast.Store):
+            return True
+        return isinstance(n, ast.Attribute) and n.attr == '_useStrictRange'
+    asg = [s for s in stmts_of(m.node) if isinstance(s, ast.Assign) and isinstance(s.targets[0], ast.Name) and s.targets[0].id == 'constraints']
+    if not asg:
+        raise AnalysisError('no `constraints = ...` in %s' % m.qualname)
+    paths = [p for p in enumerate_paths(m.node, relevant=rel, unroll=(0, 1)) if p.exit != 'raise']
+    ctx.stats['paths_enumerated'] += len(paths)
+    results = {}
+    for p in paths:
+        strict = None
+        val = None
+        node = None
+        b = T.Builder()
+        for e in p.events:
+            if e[0] == 'cond' and ''.join(unparse(e[1]).split()) == '%s._useStrictRange' % sn:
+                strict = e[2]
+            elif e[0] == 'cond' and ''.join(unparse(e[1]).split()) == 'not%s._useStrictRange' % sn:
+                strict = not e[2]
+            elif e[0] == 'stmt' and isinstance(e[1], ast.Assign) and isinstance(e[1].targets[0], ast.Name) and e[1].targets[0].id == 'constraints':
+                val = T.simp(b.t(e[1].value))
+                node = e[1]
+        if val is None:
+            continue
+        for sv in ((True, False) if strict is None else (strict,)):
+            results.setdefault(sv, set()).add((val, node))
+    for sv in (True, False):
+        want = constraints_term(sn, sv)
+        got = results.get(sv, set())
+        ctx.stats['terms_compared'] += len(got)
+        if not got:
+            raise AnalysisError('no path assigns `constraints` with strict ranges %s in %s' % ('on' if sv else 'off', m.qualname))
+        badv = [(v, n) for v, n in got if v != want]
+        construct = '%s#coupling[strict=%s]' % (m.qualname, sv)
+        if badv:
+            v, n = badv[0]
+            ctx.bad(construct, 'with strict ranges %s the constraints used by %s are %s (expected %s)' % (
+                'on' if sv else 'off', m.qualname, T.show(v), T.show(want)), m, n)
+        else:
+            ctx.ok(construct, 'constraints = %s' % T.show(want), m, asg[0])
